@@ -318,7 +318,7 @@ func init() {
 			bfs("lsm", 5, 600, prm("oracle", "c12", "mode", "managed", "keys", 2, "big", true, "gc", true, "vlog_max_entries", 2, "l0_tables", 1, "ops", "Ba Bb Da F C0 T G Ka Ia Z"), seq("Ba Bb Ba F")),
 			sched("c15gc", 3, 16, 300, prm("variant", "iter")), sched("c15gc", 3, 16, 600, prm("variant", "delete")), sched("c15gc", 3, 16, 600, prm("variant", "snapshot"))})
 
-	planTable["C07"] = lsmPlan("Every state of the managed- and normal-mode operation-sequence space (writes, deletes, value-log values, flushes, compactions, discard-timestamp moves) is closed and re-opened read-write and, separately, read-only: the dump of ALL retained versions (including internal keys) must be identical before Close and after Open, reads at every timestamp >= the discard timestamp equal the model afterwards, and a read-only open + full read + close leaves every file byte-identical (name, size, content hash). Variants with CompactL0OnClose and different compaction settings compare visible reads; a re-open with another compression setting (tables keep the one recorded in the MANIFEST) and re-opens after a value-log GC left one key and version in two L0 tables are further transitions. Read-only opens of crash images (every persistence step of short histories, including empty / truncated log files and tables not yet in the MANIFEST): whether the open succeeds or is refused, no file may change (logical content and size).",
+	planTable["C07"] = lsmPlan("Every state of the managed- and normal-mode operation-sequence space (writes, deletes, value-log values, flushes, compactions, discard-timestamp moves) is closed and re-opened read-write and, separately, read-only: the dump of ALL retained versions (including internal keys) must be identical before Close and after Open, reads at every timestamp >= the discard timestamp equal the model afterwards, and a read-only open + full read + close leaves every file byte-identical (name, size, content hash). Variants with CompactL0OnClose and different compaction settings compare visible reads; a re-open with another compression setting (tables keep the one recorded in the MANIFEST) and re-opens after a value-log GC left one key and version in two L0 tables are further transitions. Read-only opens of crash images (every persistence step of short histories, including empty / truncated log files and tables not yet in the MANIFEST): whether the open succeeds or is refused, no file may change (logical content and size). Re-opens with other settings as transitions of the search: a much larger BaseLevelSize (the base level is recomputed), bloom filters switched on for tables built without them and off again.",
 		stateRule,
 		[]Stage{bfs("lsm", 5, 50, prm("oracle", "c12", "keys", 2, "reopen", true, "readonly", true, "big", true, "ops", "Sa Ba Da F C0 T R RO")), bfs("lsm", 5, 40, prm("oracle", "c12", "mode", "normal", "keys", 2, "reopen", true, "readonly", true, "ops", "Sa Sb Da F C0 R RO")),
 			bfs("lsm", 3, 30, prm("oracle", "c12", "keys", 2, "reopen", true, "closecompact", true, "ops", "Sa Sb Da F C0 T R CX")),
@@ -327,6 +327,8 @@ func init() {
 			bfs("lsm", 2, 30, prm("oracle", "c12", "mode", "normal", "keys", 2, "big", true, "gc", true, "vlog_max_entries", 1, "reopen", true, "readonly", true, "snapshots", false, "ops", "Ba F C0 G R RO RC"), seq("Ba Bb F G F"), seq("Ba Bb F G")),
 			// re-open with a much larger BaseLevelSize (the base level moves to the last level while the level above it holds data), then deletes and compactions
 			bfs("lsm", 4, 30, prm("oracle", "c12", "mode", "normal", "keys", 1, "bulk", true, "value_threshold", 1024, "l0_tables", 1, "reopen", true, "rebase", true, "snapshots", false, "ops", "Sa Da F C0 C1 RB R"), seq("Ux F C0 Sa F C0")),
+			// re-open with bloom filters switched on (tables built without one must still answer) and off again
+			bfs("lsm", 5, 30, prm("oracle", "c12", "mode", "normal", "keys", 2, "reopen", true, "rebloom", true, "readonly", true, "snapshots", false, "l0_tables", 1, "ops", "Sa Sb Da F C0 RF RO")),
 			// read-only opens of what a crash leaves behind (orphan tables, empty or truncated log files): no file may change
 			en("crash08", 16, 40, prm("oracle", "c07ro", "len", 3, "alphabet", "T2 TV WB F C R"))},
 		[]Stage{bfs("lsm", 6, 900, prm("oracle", "c12", "keys", 2, "reopen", true, "readonly", true, "big", true, "ops", "Sa Sb Ba Da F C0 C1 T R RO")), bfs("lsm", 6, 600, prm("oracle", "c12", "mode", "normal", "keys", 2, "reopen", true, "readonly", true, "ops", "Sa Sb Da F C0 C1 R RO")), bfs("lsm", 5, 600, prm("oracle", "c12", "keys", 2, "reopen", true, "closecompact", true, "ops", "Sa Sb Da F C0 T R CX")),
